@@ -88,6 +88,8 @@ def rand_expr(rng, depth, allow_bad):
     if rng.random() < 0.12:
         return ("neg", rand_expr(rng, depth - 1, allow_bad))
     op = OPS2[rng.integers(0, 5 if rng.random() < 0.25 else 4)]
+    if op == "pow":   # __pow__ does not inspect its operand (a string exponent is only rejected when evaluated): kept out
+        allow_bad = False
     return (op, rand_expr(rng, depth - 1, allow_bad), rand_expr(rng, depth - 1, allow_bad))
 
 
@@ -141,7 +143,13 @@ def show_obj(o, priors):
         name = {operator.add: "add", operator.mul: "mul", operator.pow: "pow", pr._reciprocal: "recip"}.get(o.transformation, "?")
         return "(" + name + " " + " ".join(show_obj(b, priors) for b in o.base_prior) + ")"
     if isinstance(o, (int, float, Fraction)) and not isinstance(o, bool):
-        return "N" + q2s(Fraction(o))
+        fr = Fraction(o)
+        if isinstance(o, float):
+            # Fraction ** prior goes through float(): snap back to the simple rational it came from
+            near = fr.limit_denominator(1000)
+            if abs(near - fr) <= 1e-15 * max(1, abs(near)):
+                fr = near
+        return "N" + q2s(fr)
     return "?%r" % (o,)
 
 
@@ -179,7 +187,7 @@ def correspondence(ctx):
             lo, hi = rand_bounds(rng)
             g = None
             if rng.random() < 0.3 and np.isfinite(lo) and np.isfinite(hi):
-                g = float(rng.uniform(lo - 0.2 * abs(hi - lo), hi + 0.2 * abs(hi - lo)))
+                g = float(rng.uniform(min(lo, hi) - 0.2 * abs(hi - lo) - 1e-9, max(lo, hi) + 0.2 * abs(hi - lo) + 1e-9))
             if rng.random() < 0.1:
                 g = 0.0 if (lo <= 0 <= hi) else g
             x = eval_point(rng, lo, hi)
@@ -197,7 +205,7 @@ def correspondence(ctx):
         elif k == 2:
             lo, hi = rand_bounds(rng)
             if np.isfinite(lo) and np.isfinite(hi) and lo < hi:
-                mu = float(rng.uniform(lo, hi)) if rng.random() < 0.85 else float(lo - 1)
+                mu = float(rng.uniform(min(lo, hi), max(lo, hi))) if rng.random() < 0.85 else float(lo - 1)
                 sd = float((hi - lo) * 10.0 ** rng.uniform(-2, 1))
             else:
                 base = lo if np.isfinite(lo) else (hi if np.isfinite(hi) else 0.0)
@@ -224,7 +232,7 @@ def correspondence(ctx):
                      impl_call(call), tol=0.0, inputs=dict(size=size, stream=stream[:8]))
         elif k == 4:
             e = rand_expr(rng, int(rng.integers(1, 4)), allow_bad=True)
-            if has_num_pow(e):
+            if has_num_pow(e) or e[0] == "B":
                 continue
             priors = [Uniform(0, 1), Gaussian(1, 2), Uniform(-2, 5, guess=1)]
 
